@@ -8,6 +8,7 @@
 import LLTD.Props.C04
 import LLTD.Lemmas.TranslatedWireEq
 import LLTD.Lemmas.TranslatedHelloChain
+import LLTD.Props.C03T
 
 namespace LLTD.C04T
 open LLTD LLTD.Spec LLTD.TWEq
@@ -91,6 +92,26 @@ theorem hello_properties_translated (base : TW.Env) (c : Cfg) (g : Glob) (pre : 
     ∧ helloTlvs c g = encodeTlvs (helloProps c g) ∧ decodeAttrs (helloProps c g) = expectedAttrs c g :=
   ⟨TChain.helloChain_writes base c g hc hr.iftype hr.speed hr.mode hr.rate hr.rssiLo hr.rssiHi hb4 hh hl he pre k hk,
    helloTlvs_eq c g, C04.roundtrip c g hr⟩
+
+/-- **end to end**: the bytes the translated header and property writers (composed as `answerHello` composes them) hand to the port
+    decode - with the INDEPENDENT decoder - to a Hello whose property list yields exactly the interface's attributes -/
+theorem hello_translated_attrs (base : TW.Env) (c : Cfg) (g : Glob) (hc : CfgOk c) (hr : C04.CfgRange c) (tos gen : Nat)
+    (cur app : List Nat) (k : Nat) (htos : tos < 256) (hgen : gen < 65536) (hcur : cur.length = 6) (happ : app.length = 6)
+    (hb4 : isBytes c.ipv4) (hh : g.host.length < 18446744073709551616) (hl : c.ssid.length < 18446744073709551616)
+    (he : TChain.EnvOk base) (hk : (helloTlvs c g).length ≤ k) :
+    let env := envOf c g base
+    let b1 := TW.setLltdHeader env (List.replicate 46 0 ++ List.replicate k 0) c.ourMac bcast 0 X.opHello tos
+    let b2 := TW.setHelloHeader env b1.buffer b1.ret app cur gen
+    let b3 := TChain.helloChain env c.wifi b2.buffer (b1.ret + b2.ret)
+    ∃ h, decodeHello (b3.1.take (b1.ret + b2.ret + b3.2)) = some h ∧ decodeAttrs h.tlvs = expectedAttrs c g := by
+  intro env b1 b2 b3
+  have h := C03T.hello_frame_translated base c g hc tos gen cur app k htos hgen hcur happ hr.iftype hr.speed hr.mode hr.rate hr.rssiLo hr.rssiHi
+    hb4 hh hl he hk
+  simp only at h
+  show ∃ h', decodeHello ((TChain.helloChain env c.wifi b2.buffer (b1.ret + b2.ret)).1.take
+    (b1.ret + b2.ret + (TChain.helloChain env c.wifi b2.buffer (b1.ret + b2.ret)).2)) = some h' ∧ _
+  rw [h.1, h.2, List.take_left, decodeHello_helloFrame c g gen tos cur app hc hcur happ]
+  exact ⟨_, rfl, C04.roundtrip c g hr⟩
 
 /-- the hypotheses are satisfiable: a concrete wired record -/
 example : CfgOk { mac := [2, 0, 0, 0, 0, 1], mtu := 1500 } ∧ C04.CfgRange { mac := [2, 0, 0, 0, 0, 1], mtu := 1500 } := by
